@@ -313,7 +313,11 @@ func c18NoWrites(w *World, r *Recorder, rule string, a apiFunc) {
 	var why []string
 	for i, wr := range ef.WritesParam {
 		if wr {
-			why = append(why, fmt.Sprintf("memory reachable from parameter %d (%s)", i, a.fn.Params[i].Name()))
+			name := "captured variable"
+			if i < len(a.fn.Params) {
+				name = a.fn.Params[i].Name()
+			}
+			why = append(why, fmt.Sprintf("memory reachable from parameter %d (%s)", i, name))
 		}
 	}
 	for g := range ef.WritesGlobals {
